@@ -418,6 +418,10 @@ class C20(PropBase):
                     add("recover_args", mk("F:test.dmp", "a", modes, brief, 0, feat, 1, rng.choice(["-", "g"])))
         add("help_markdown", mk("F:test.dmp", "n", "m"))
         add("help_markdown", mk("X:missing", "n", "m", 0, 1))
+        # F-C20e: the manual on a standard output that cannot take it (was: expect() => panic, status 101)
+        for so in ("u", "p", "p1000"):
+            add("help_markdown", mk("F:test.dmp", "n", "m", stdout=so))
+        add("help_markdown", mk("X:missing", "n", "m", log_="g", stdout="u"))
         # F. mutated dumps
         nmut = 200 if not thorough else 2500
         for i in range(nmut):
@@ -768,7 +772,13 @@ class C20(PropBase):
         if ex == "2":
             return "exit status 2 for an accepted option combination"
         if prim == "HELP":
-            return None if (ex == "0" and sink_len(stdout)) else "--help-markdown did not print the manual"
+            if ex == "0" and sink_len(stdout):
+                return None
+            if c["stdout"][0] == "p" and ex == "0":
+                return None          # the reader went away: silent status 0, as for the reports
+            if c["stdout"][0] == "u" and ex == "1" and (stderr or logf):
+                return None          # the manual cannot be written: status 1 with a diagnostic
+            return "--help-markdown did not print the manual"
         if lib == "X":
             return "the library panicked in-process on this input (the tool exited with status %s)" % ex
         primary = stdout if c["out"] == "-" else out
@@ -990,6 +1000,8 @@ class C20(PropBase):
                 continue
             if want.endswith("~"):
                 base = want[:-1]
+                if base == "HELP":
+                    continue          # no in-process rendering of the manual to compare a prefix with
                 w = base + (p_rec if base in ("H", "HB", "J", "JP") else "")
                 pipe = (nm == "stdout" and c["stdout"][0] == "p") or (nm == "output file" and c["out"][0] == "f")
                 if (w + "<") in s[2] or (pipe and (w in s[2] or s[0] == 0)):
